@@ -14,6 +14,7 @@ PROPS = {
             {"name": "TestC01", "quick": 4000, "thorough": 60000},
             {"name": "TestC01Ex", "kind": "plain"},
         ],
+        "fuzz": [{"name": "FuzzC01RoundTrip", "time": "90s"}],
         "rule": "cases = (data recipe, constructor {NewWriter, 4K window, NewWriterDict}, level -2..9, Write/Flush partition) drawn by rapid, "
                 "plus an enumeration of lengths around every buffer threshold; each runs at every runnable acceleration level in its own process. "
                 "Oracle: emitted bytes are exactly one complete RFC 1951 stream (reference inflater end position == length), decoded identically by "
@@ -92,6 +93,7 @@ PROPS = {
         "tests": [
             {"name": "TestC03", "quick": 6000, "thorough": 100000},
             {"name": "TestC03Ex", "kind": "plain"},
+            {"name": "TestC03Sweep", "kind": "plain", "shards": {"quick": 1, "thorough": 3}},
         ],
         "fuzz": [{"name": "FuzzC03AnyBytes", "time": "150s"}],
         "rule": "cases = random bytes (0..64), mutated valid streams (bit flips, substitutions, insertions, deletions, truncation), valid streams cut at a drawn byte, synthesised streams with one injected fault at a drawn block (distance beyond data produced, unassigned distance code, distance code used with none declared, over-subscribed lit/dist/code-length code, incomplete lit/len code, missing end-of-block code, repeat with nothing to repeat, run past the declared count, stored LEN!=~NLEN, reserved block type, length symbols 286/287, distance symbols 30/31, HLIT>29) usually followed by a long tail; placed first in a fresh Reader or after 1-3 earlier uses through Reset; x Read sizes x source chunking; plus every truncation point of fixed small valid streams (exhaustive). "
